@@ -232,4 +232,23 @@ theorem copy_field (n : Nat) (pre x post : Bytes) (k : Nat) (hpre : pre.length =
     copyInto (zeros n) ((pre ++ (x ++ post)).drop k) = x := by
   rw [drop_pre pre _ k hpre, copyInto_zeros n _ (by simp; omega), take_pre x post n hx]
 
+theorem helloElemHeader_at (recv : V) (d : Slice) (hwf : d.WF) (ty ln : UInt16) (rest : Bytes)
+    (h : d.bytes = be16 ty ++ (be16 ln ++ rest)) :
+    HelloElemHeader.unmarshal recv d = .ok (.obj "HelloElemHeader" [.num ty.toNat, .num ln.toNat]) := by
+  have hl : 4 + rest.length = d.len := by rw [← bytes_length d hwf, h]; simp; omega
+  unfold HelloElemHeader.unmarshal
+  rw [if_neg (by omega), u16In_at d hwf 0 2 ty _ (by omega) (by omega) h,
+    u16In_at d hwf 2 4 ln _ (by omega) (by omega) (by rw [h]; rfl)]
+  rfl
+
+/-- a slice with exactly the given bytes and no spare capacity -/
+theorem exact_bytes (bs : Bytes) : (Slice.exact bs).bytes = bs := List.take_length
+
+/-- a slice showing `bs` with `spare` behind it in the backing array -/
+theorem spare_bytes (bs spare : Bytes) : (Slice.mk (bs ++ spare) bs.length).bytes = bs := by
+  simp [Slice.bytes]
+
+theorem spare_wf (bs spare : Bytes) : (Slice.mk (bs ++ spare) bs.length).WF := by
+  simp [Slice.WF]
+
 end OFV.Sw
